@@ -223,7 +223,13 @@ def run_impl(name, x, column=False):
     if fn is None:
         return None, 'missing'
     try:
-        v = fn(np.array(x, dtype=float).reshape(-1, 1) if column else np.array(x, dtype=float))
+        if column == 'strided':
+            big = np.zeros(2 * len(x) + 1, dtype=float) + 123.456       # the coordinates as every second cell of a larger buffer
+            big[::2][:len(x)] = x
+            arg = big[::2][:len(x)]
+        else:
+            arg = np.array(x, dtype=float).reshape(-1, 1) if column else np.array(x, dtype=float)
+        v = fn(arg)
     except Exception as ex:        # noqa: BLE001
         return None, 'exception %s: %s' % (type(ex).__name__, ex)
     try:
@@ -282,6 +288,11 @@ def evaluate(name, info, x, cls):
     if (colv is None) != (impl is None) or (colv is not None and not close(colv, impl)):
         c['oracle'].append({'key': 'layout:%s' % name, 'what': '%s returns %r (%s) for the coordinates as an (n, 1) column -- the layout of Agent.position -- '
                             'and %r (%s) for the same coordinates as a flat vector' % (name, colv, col_note, impl, impl_note)})
+    strv, str_note = run_impl(name, x, column='strided')
+    if (strv is None) != (impl is None) or (strv is not None and not close(strv, impl)):
+        c['oracle'].append({'key': 'layout:%s' % name, 'what': '%s returns %r (%s) for the coordinates as a strided view (every second cell of a larger '
+                            'buffer, e.g. a column of a population matrix) and %r (%s) for the same coordinates as a contiguous vector'
+                            % (name, strv, str_note, impl, impl_note)})
     # -- minimum oracle
     if name in MINIMA and impl is not None:
         m, _, atol = MINIMA[name]
